@@ -160,27 +160,54 @@ func runC11(x *Ctx) {
 	}
 
 	// ---------------- R2
-	wantCmp := map[string]string{">": "gt", ">=": "gte", "<": "lt", "<=": "lte"}
-	for _, k := range []string{">", ">=", "<", "<="} {
-		ok, n := true, 0
-		detail := ""
+	// decided(k, pre, want): on every returning path of kind k that carries the facts pre (selector resolved,
+	// a value selected), the result is decided by the atom want and by nothing else: True when it holds,
+	// False (with the statement as the failing one) when it does not. The comparison may sit in the case
+	// itself, in a local closure or in a helper: all of these are spliced into the paths.
+	decided := func(k string, pre map[string]bool, want string) (bool, int, string) {
+		ok, n, detail := true, 0, ""
 		for _, p := range ofKind(k) {
-			if p.End != paths.EndReturn {
+			if p.End == paths.EndLatch {
 				continue
 			}
-			r := p.Results()[0]
-			if !strings.HasPrefix(r.String(), "call[pkg/policy.matchStatement$1](") {
+			sat := true
+			for a, pol := range pre {
+				if !p.HasFact(a, pol) {
+					sat = false
+				}
+			}
+			if !sat {
 				continue
 			}
 			n++
-			arg := r.Args[0].Args[0]
-			want := "call[pkg/policy.isOrdered](typeassert[pkg/policy.equality](arg0)#0.value," + selectCall(x, "typeassert[pkg/policy.equality](arg0)#0.selector", "arg1") + "#0,func(pkg/policy." + wantCmp[k] + "))"
-			if arg.String() != want {
+			pol, has := p.FactOn(want)
+			switch {
+			case p.End != paths.EndReturn:
 				ok = false
-				detail += "evaluates " + arg.String() + "\n"
+				detail += "a path with a selected value ends in " + p.End.String() + "\n"
+			case !has:
+				ok = false
+				detail += "a path with a selected value returns " + p.Results()[0].String() + " without evaluating " + want + ":\n" + p.String() + "\n"
+			case pol && !p.Results()[0].IsConst(fmt.Sprint(mr["True"])):
+				ok = false
+				detail += "the comparison holds but the result is " + p.Results()[0].String() + "\n"
+			case !pol && (!p.Results()[0].IsConst(fmt.Sprint(mr["False"])) || p.Results()[1].String() != "arg0"):
+				ok = false
+				detail += "the comparison fails but the result is " + p.Results()[0].String() + ", " + p.Results()[1].String() + "\n"
 			}
 		}
-		x.C.Obl("C11.R2", "wiring:"+k, x.pos(ms), "kind "+k+" evaluates isOrdered(statement value, selected node, "+wantCmp[k]+")", ok && n == 1, detail)
+		return ok, n, detail
+	}
+	selected := func(typ string) (string, map[string]bool) {
+		sel := selectCall(x, "typeassert["+typ+"](arg0)#0.selector", "arg1")
+		return sel, map[string]bool{eqs(sel+"#1", "const(nil)"): true, eqs(sel+"#0", "const(nil)"): false}
+	}
+	wantCmp := map[string]string{">": "gt", ">=": "gte", "<": "lt", "<=": "lte"}
+	for _, k := range []string{">", ">=", "<", "<="} {
+		sel, pre := selected("pkg/policy.equality")
+		want := "call[pkg/policy.isOrdered](typeassert[pkg/policy.equality](arg0)#0.value," + sel + "#0,func(pkg/policy." + wantCmp[k] + "))"
+		ok, n, detail := decided(k, pre, want)
+		x.C.Obl("C11.R2", "wiring:"+k, x.pos(ms), "kind "+k+" is True / False exactly as isOrdered(statement value, selected node, "+wantCmp[k]+")", ok && n >= 2, detail)
 	}
 	truth := map[string][]int64{"gt": {1}, "gte": {0, 1}, "lt": {-1}, "lte": {-1, 0}}
 	for _, name := range []string{"gt", "gte", "lt", "lte"} {
@@ -264,36 +291,10 @@ func runC11(x *Ctx) {
 	}
 	// equality
 	{
-		ok, n := true, 0
-		detail := ""
-		for _, p := range ofKind("==") {
-			if p.End != paths.EndReturn {
-				continue
-			}
-			r := p.Results()[0]
-			if !strings.HasPrefix(r.String(), "call[pkg/policy.matchStatement$1](") {
-				continue
-			}
-			n++
-			want := "call[github.com/ipld/go-ipld-prime/datamodel.DeepEqual](typeassert[pkg/policy.equality](arg0)#0.value," + selectCall(x, "typeassert[pkg/policy.equality](arg0)#0.selector", "arg1") + "#0)"
-			if r.Args[0].Args[0].String() != want {
-				ok = false
-				detail += "evaluates " + r.Args[0].Args[0].String() + "\n"
-			}
-		}
-		x.C.Obl("C11.R2", "wiring:==", x.pos(ms), "kind == evaluates DeepEqual(statement value, selected node)", ok && n == 1, detail)
-	}
-	// boolToRes closure
-	if f := x.fn("C11.R2", "pkg/policy.matchStatement$1"); f != nil {
-		ok := true
-		for _, p := range x.pathsQuiet(f) {
-			pol, has := p.FactOn("arg0")
-			r := p.Results()[0]
-			if !has || (pol && !r.IsConst(fmt.Sprint(mr["True"]))) || (!pol && !r.IsConst(fmt.Sprint(mr["False"]))) {
-				ok = false
-			}
-		}
-		x.C.Obl("C11.R2", "boolToRes", x.pos(f), "true -> True, false -> False", ok, "")
+		sel, pre := selected("pkg/policy.equality")
+		want := "call[github.com/ipld/go-ipld-prime/datamodel.DeepEqual](typeassert[pkg/policy.equality](arg0)#0.value," + sel + "#0)"
+		ok, n, detail := decided("==", pre, want)
+		x.C.Obl("C11.R2", "wiring:==", x.pos(ms), "kind == is True / False exactly as DeepEqual(statement value, selected node)", ok && n >= 2, detail)
 	}
 	// negation table
 	{
@@ -369,17 +370,11 @@ func runC11(x *Ctx) {
 		}
 		x.C.Obl("C11.R4", "like-non-string", x.pos(ms), "like on a value that is not a string is False", ok && n > 0, "")
 		// like wiring (C13.R4)
-		okW, nW := true, 0
-		for _, p := range ofKind("like") {
-			if p.End == paths.EndReturn && strings.HasPrefix(p.Results()[0].String(), "call[pkg/policy.matchStatement$1](") {
-				nW++
-				want := "call[(pkg/policy.glob).Match](typeassert[pkg/policy.wildcard](arg0)#0.pattern,invoke[github.com/ipld/go-ipld-prime.Node.AsString](" + sel + "#0)#0)"
-				if p.Results()[0].Args[0].Args[0].String() != want {
-					okW = false
-				}
-			}
-		}
-		x.C.Obl("C11.R4", "like-wiring", x.pos(ms), "like evaluates pattern.Match(selected string)", okW && nW == 1, "")
+		_, pre := selected("pkg/policy.wildcard")
+		pre[eqs(as, "const(nil)")] = true
+		want := "call[(pkg/policy.glob).Match](typeassert[pkg/policy.wildcard](arg0)#0.pattern,invoke[github.com/ipld/go-ipld-prime.Node.AsString](" + sel + "#0)#0)"
+		okW, nW, dW := decided("like", pre, want)
+		x.C.Obl("C11.R4", "like-wiring", x.pos(ms), "like is True / False exactly as pattern.Match(selected string)", okW && nW >= 2, dW)
 	}
 	for _, k := range []string{"all", "any"} {
 		sel := selectCall(x, "typeassert[pkg/policy.quantifier](arg0)#0.selector", "arg1")
